@@ -212,19 +212,28 @@ def run_call(f):
 
 
 # ------------------------------------------------------------------ constructor cases
-def gen_ctor(r):
+def gen_ctor(r, pat=None):
+    """pat: identifier pattern of both Hamiltonians -- 0 none given, 1 all given, 2 given / None mixed,
+    3 given / missing third element mixed (zip_longest fills None)"""
     d = int(r.choice([2, 3]))
     n_dt = int(r.integers(1, 4))
+    pat = int(r.integers(0, 4)) if pat is None else pat
 
     def H(noise):
-        n = int(r.integers(1, 4))
-        pat = int(r.integers(0, 3))
+        n = int(r.integers(1, 4)) if pat < 2 else int(r.integers(2, 4))
         names = list(r.permutation(['a', 'b', 'c', 'd', 'A_7', 'B_9']))
+        filler = None if pat == 2 else E.ABSENT
+        given = [True] * n if pat == 1 else ([False] * n if pat == 0 else [bool(x) for x in r.integers(0, 2, n)])
+        if pat >= 2:                   # at least one identifier given and one to be filled with its default
+            given[int(r.integers(0, n))] = True
+            if all(given):
+                given[int(r.integers(0, n))] = False
+            if not any(given):
+                given[0] = True
         es = []
         for i in range(n):
-            ident = E.ABSENT if pat == 0 else (names[i] if pat == 1 or r.random() < 0.5 else None)
             es.append(dict(islist=True, oper=dict(kind='OArray' if r.random() < 0.8 else 'OConvertible', shape=[d, d]),
-                           coeff=n_dt, id=ident))
+                           coeff=n_dt, id=(names[i] if given[i] else filler)))
         return es
     basis = 'default' if r.random() < 0.5 else [int(r.integers(1, d * d + 1)), d, d]
     return dict(dt_haslen=True, dt=[str(r.choice(['pos', 'pos', 'zero'])) for _ in range(n_dt)], Hc=H(False), Hn=H(True), basis=basis, d=d)
@@ -273,7 +282,8 @@ def ctor_corruptions(k):
                     c = copy.deepcopy(k)
                     c[which][i]['id'] = k[which][j]['id']
                     out.append(('duplicate-identifier', ('ValueError',), c))
-                if j != i and k[which][j]['id'] is None:      # an explicit identifier equal to a filled default
+                if j != i and not isinstance(k[which][j]['id'], str) and any(isinstance(e['id'], str) for e in k[which]):
+                    # an explicit identifier equal to the default that entry j (None or no third element) will get
                     c = copy.deepcopy(k)
                     c[which][i]['id'] = '%s_%d' % ('B' if which == 'Hn' else 'A', j)
                     out.append(('duplicate-default-identifier', ('ValueError',), c))
@@ -841,9 +851,9 @@ def jsonable(x):
 def collect_cases(ctx, thorough):
     col = Collector()
     r = ctx.rng(20)
-    n_base = 12 if thorough else 3
+    n_base = 12 if thorough else 4
     for b in range(n_base):
-        k = gen_ctor(r)
+        k = gen_ctor(r, pat=b % 4)
         k['seed'] = b
         col.case('constructor', 'valid', 'validate_ctor %s' % ctor_c(k), (lambda kk: (lambda: ff.PulseSequence(*real_ctor(kk))))(k), (), k)
         for nm, doc, c, *sig in ctor_corruptions(k):
